@@ -200,7 +200,7 @@ class C19(Prop):
         "C19.refPattern_is_modelled",
     ]
     partial = []
-    budget = {"quick": (9000, 5000), "thorough": (520000, 120000)}
+    budget = {"quick": (12000, 5000), "thorough": (400000, 120000)}
 
     def __init__(self):
         self._label = {}
@@ -237,18 +237,25 @@ class C19(Prop):
             a = core.enc(s)
             self._label[a] = label
             yield ("lic.canon", [a])
+            if max_depth(ref_tokens(s)) <= 2000:
+                yield ("s.lic.canon", [a])      # Lean spec vs the independent Python reference (both from the statement)
 
     def real(self, op, args):
+        if op == "s.lic.canon":
+            want = ref_canon(core.dec(args[0]))
+            return "ok " + core.enc(want) if want is not None else "err InvalidLicenseExpression"
         return proto(real_canon(core.dec(args[0])))
 
     def nontrivial(self, op, args, out):
         return out.startswith("ok ")
 
     def branch(self, op, args, out):
-        label = self._label.get(args[0], "?").split("+")[0]
+        label = ("spec:" if op == "s.lic.canon" else "") + self._label.get(args[0], "?").split("+")[0]
         return f"{label}:{out.split(' ', 1)[0] if not out.startswith('raw') else out}"
 
     def judge(self, op, args, real, model, driver):
+        if op != "lic.canon":
+            return None      # Lean spec vs Python reference: a disagreement is my defect, not the repository's
         s = core.dec(args[0])
         for law in ("exception_class", "accept_iff_wf", "canon_is_spdx_canon", "idempotent"):
             try:
